@@ -65,7 +65,10 @@ def texts():
     bad2 = b"@export A = 'a' b:B;\n@string @export B = 'b';\n"
     bad3 = b"@export A = !(f:B) 'a';\nB = 'b';\n"
     coll = collide(zlib.crc32(t1), b"@export A = 'z';\n# ")
-    return {"1": t1, "2": t2, "x": bad, "y": bad2, "z": bad3, "c": coll}
+    # two valid texts that differ only in a raw CR inside a literal (and in the line ends)
+    k = b"@export @no_skip_ws A = 'a\r\nb' $;\r\n"
+    l = b"@export @no_skip_ws A = 'a\nb' $;\n"
+    return {"1": t1, "2": t2, "x": bad, "y": bad2, "z": bad3, "c": coll, "k": k, "l": l}
 
 
 PREFIXES = [b"", b"use a;", b"use a;\nuse b;", b"// p"]
@@ -96,13 +99,14 @@ def check(out, ctx):
         hist.append(["E1", "R", "Ec", "R"])
         hist.append(["E1", "R", "Ex", "R", "E-", "R", "E2", "R", "D", "R", "R"])
         hist.append(["E1", "R", "Ey", "R", "R", "E1", "R"])
+        hist.append(["Ek", "R", "El", "R", "Ek", "R", "R"])
         hist.append(["E2", "P" + PREFIXES[1].hex(), "R", "Ez", "R", "R", "Ey", "R", "E2", "R"])
         for _ in range(nh):
             ops = []
             for _ in range(rnd.randint(3, 12)):
                 r = rnd.random()
                 if r < 0.3:
-                    ops.append("E" + rnd.choice(["1", "2", "x", "y", "z", "c", "-", "1", "2"]))
+                    ops.append("E" + rnd.choice(["1", "2", "x", "y", "z", "c", "-", "1", "2", "k", "l"]))
                 elif r < 0.5:
                     ops.append("P" + rnd.choice(PREFIXES).hex())
                 elif r < 0.6:
@@ -166,8 +170,9 @@ def check(out, ctx):
                     if res == "OK" and cur_text is not None and info[cur_text][2] is not None:
                         want = info[cur_text][1] + b"\n" + prefix + b"\n" + info[cur_text][2]
                         if after != want:
-                            if not wrote and origin is not None and origin[0] != cur_text:
-                                key = "c18:crc-collision"
+                            if not wrote and origin is not None and origin[0] != cur_text and \
+                                    zlib.crc32(T[origin[0]]) == zlib.crc32(T[cur_text]):
+                                key = "c18:crc-collision"   # the two texts really have the same CRC-32 over their bytes
                             elif not wrote and origin is not None and origin[1] != prefix and origin[1].startswith(prefix):
                                 key = "c18:prefix-shrink"
                             else:
@@ -199,7 +204,7 @@ def check(out, ctx):
                 samples.append({"history": ops, "mode": mode, "runs": trace})
         out.coverage.update({
             "evaluations": runs, "distinct_nontrivial": len(nontrivial),
-            "rule": "random histories (3..12 ops) of {edit grammar to one of 2 valid / 1 syntax-invalid / 2 generator-rejected / 1 CRC-colliding text or make it unreadable, change prefix (4 prefixes incl. one that is a prefix of another), delete destination, run} in file mode, explicit-destination mode and directory mode, plus 6 directed histories; evaluations = runs of Compile; non-trivial = history of >= 4 ops; distinct by op sequence",
+            "rule": "random histories (3..12 ops) of {edit grammar to one of 2 valid / 1 syntax-invalid / 2 generator-rejected / 1 CRC-colliding text or make it unreadable, change prefix (4 prefixes incl. one that is a prefix of another), delete destination, run} in file mode, explicit-destination mode and directory mode, plus 7 directed histories; evaluations = runs of Compile; non-trivial = history of >= 4 ops; distinct by op sequence",
             "samples": samples, "histories": len(hist), "model_vs_implementation_disagreements": disagree,
             "known_stale_destinations_seen": stale_known,
         })
